@@ -50,6 +50,7 @@ func runC03(r *harness.Run) {
 		"plus getfenv/setfenv programs over function/level targets; each program runs on gopher-lua and on the reference interpreter (variables are heap cells there, so closures are correct by construction); white-box: after protected calls no open upvalue may point above the live frames"
 	r.Assumptions = []string{"luaref models variables as heap cells", "instruction-level fault injection for closures is part of C05's engine"}
 	pr.runGens(gens, []string{"F-env", "F-closure", "F-nest"})
+	runPinned(r, "C03")
 }
 
 // ---- F-closure ---------------------------------------------------------------------------------------
